@@ -12,7 +12,7 @@ from .common import fhex, ints
 
 PROP_FILE = "Properties/C12.v"
 GEN = ["GenC12"]
-RUN_FILES = ["Model/C12_run.v"]
+RUN_FILES = ["Model/C12_run.v", "Model/C12_run_area.v"]
 
 PROJ_FAMILIES = [
     "+proj=laea +lat_0=50 +lon_0=10 +ellps=WGS84",
@@ -35,6 +35,19 @@ KWARGS = [{}, {"radius_of_influence": 10000}, {"radius_of_influence": 10000.0}, 
           {"weight_funcs": "gauss"}, {"sigmas": [1, 2]}, {"sigmas": [1, 3]}, {"sigmas": [1, 3.0]},
           {"epsilon": 0, "fill_value": None, "mask": True}, {"mask": True, "epsilon": 0, "fill_value": None},
           {"fill_value": None, "mask": True, "epsilon": 0}]
+# pairs of dicts that differ only in a falsy but meaningful value (0 / False / 0.0 / '' against absent, None or another value)
+FALSY = [({"fill_value": 0}, {}), ({"fill_value": 0}, {"fill_value": None}), ({"epsilon": 0}, {}), ({"epsilon": 0.0}, {"epsilon": 1e-9}),
+         ({"neighbours": 0}, {"neighbours": None}), ({"reduce_data": False}, {}), ({"reduce_data": False}, {"reduce_data": None}),
+         ({"mask_area": False}, {}), ({"radius_of_influence": 0.0}, {}), ({"radius_of_influence": 0.0}, {"radius_of_influence": 1e-9}),
+         ({"weight_funcs": ""}, {}), ({"weight_funcs": ""}, {"weight_funcs": None}), ({"segments": 0}, {"segments": None}),
+         ({"fill_value": 0, "neighbours": 1}, {"neighbours": 1}), ({"mask": False}, {"mask": None})]
+KW_FALSY = []
+for _a, _b in FALSY:
+    for _d in (_a, _b):
+        if _d not in KWARGS or [type(v) for v in KWARGS[KWARGS.index(_d)].values()] != [type(v) for v in _d.values()]:
+            KWARGS.append(_d)
+    KW_FALSY.append((max(i for i, d in enumerate(KWARGS) if d == _a and [type(v) for v in d.values()] == [type(v) for v in _a.values()]),
+                     max(i for i, d in enumerate(KWARGS) if d == _b and [type(v) for v in d.values()] == [type(v) for v in _b.values()])))
 # pairs of equal dicts written in another key order
 KW_ORDER = [(13, 14), (14, 13), (24, 25), (25, 26), (26, 24)]
 assert all(KWARGS[a] == KWARGS[b] and list(KWARGS[a]) != list(KWARGS[b]) for a, b in KW_ORDER)
@@ -311,8 +324,17 @@ class Gen:
                 t1 = t2 = r.choice(variants)
                 k1 = r.randrange(len(KWARGS))
                 k2 = r.choice([k1, k1, r.randrange(len(KWARGS))])
-                mode = r.choice(["kw", "kw", "src", "tgt", "same", "kw_order"])
-                if mode == "kw_order":
+                mode = r.choice(["kw", "kw", "src", "tgt", "same", "kw_order", "kw_falsy"])
+                if mode == "kw":
+                    k2 = r.choice([k for k in range(len(KWARGS)) if KWARGS[k] != KWARGS[k1]])
+                    if r.random() < 0.5:
+                        s2 = s1
+                elif mode == "kw_falsy":
+                    k1, k2 = r.choice(KW_FALSY)
+                    if r.random() < 0.5:
+                        k1, k2 = k2, k1
+                    s2 = s1
+                elif mode == "kw_order":
                     k1, k2 = r.choice(KW_ORDER)
                 elif mode == "src":
                     s2, k2 = len(self.geos) - 1, k1      # the last perturbed area
@@ -322,6 +344,14 @@ class Gen:
                     k2 = k1
                 self.keys.append([s1, t1, k1, s2, t2, k2])
                 self.kmeta.append({"mode": mode})
+
+    def falsy_keys(self):
+        """Every falsy-vs-absent/None/other pair of kwargs, in both orders, for one fixed (source, target)."""
+        for k1, k2 in KW_FALSY:
+            for a, b in ((k1, k2), (k2, k1)):
+                self.keys.append([0, 0, a, 0, 0, b])
+                self.kmeta.append({"mode": "kw_falsy"})
+                self.ctx.count("key_kw_falsy_fixed")
 
     def f32_tiny(self):
         """np.isclose in float32 differs from float64 evaluation only where |x - y| is of the order of atol: extents of
@@ -760,19 +790,22 @@ def oracle(g, obs):
             res.append(("C12.key.error", "cache key computation raised %s %s" % (r["error"], r.get("msg")), "key", idx))
             continue
         s1, t1, k1, s2, t2, k2 = kc
-        rels = {k: r[k] for k in ("base", "future", "func")}
+        rels = {k: r[k] for k in ("base", "future", "func", "hash_dict", "cache_filename") if k in r}
         if not r["base_args"]:
             res.append(("C12.key.get_hash_args", "get_hash(src, tgt, **kw) differs from the resampler's own key for the same geometries", "key", idx))
-        if KWARGS[k1] != KWARGS[k2] and s1 == s2 and t1 == t2 and any(rels.values()):
-            res.append(("C12.key.kwargs", "kwargs %s vs %s give the same cache key (%s)" % (KWARGS[k1], KWARGS[k2], rels), "key", idx))
+        if (KWARGS[k1] != KWARGS[k2] or km["mode"] == "kw_falsy") and any(rels.values()):
+            same = [k for k, v in rels.items() if v]
+            key = "C12.key.kwargs.falsy" if km["mode"] == "kw_falsy" else "C12.key.kwargs"
+            res.append((key, "kwargs %s vs %s give the same cache key through %s" % (KWARGS[k1], KWARGS[k2], ", ".join(same)), "key", idx))
         if km["mode"] == "kw_order" and not all(rels.values()):
             key = crs_key(obs, s1, s2) or crs_key(obs, t1, t2) or ("C12.key.kwargs_order" if r["geo"] else "C12.key.spelling")
             res.append((key, "the same kwargs written in another order (%s / %s) give different cache keys (%s)" % (KWARGS[k1], KWARGS[k2], rels), "key", idx))
         if km["mode"] == "same" and not all(rels.values()):
             key = crs_key(obs, s1, s2) or crs_key(obs, t1, t2) or "C12.key.spelling"
             res.append((key, "identical geometries (other spelling) and identical kwargs give different cache keys (%s)" % rels, "key", idx))
-        if km["mode"] in ("src", "tgt") and any(rels.values()):
-            res.append(("C12.key.geometry", "a different %s geometry gives the same cache key (%s)" % (km["mode"], rels), "key", idx))
+        grels = {k: v for k, v in rels.items() if k != "hash_dict"}      # hash_dict alone does not see the geometries
+        if km["mode"] in ("src", "tgt") and any(grels.values()):
+            res.append(("C12.key.geometry", "a different %s geometry gives the same cache key (%s)" % (km["mode"], grels), "key", idx))
     for idx, (c, steps) in enumerate(zip(g.area_hist, obs["area_hist"])):
         rt = obs["rt"]
         for n, (op, r) in enumerate(zip(c["ops"], steps)):
@@ -903,8 +936,10 @@ def coq_geo(g, i, obs):
     return None
 
 
-HDR = ("From Coq Require Import ZArith List Bool PrimFloat.\nFrom PR Require Model.Stack.\nFrom PR Require Import Base.Num Base.F64 Base.Slice Base.ListX Model.HashEq "
-       "Gen.GenC12 Model.C12_slice Model.C12_run.\nImport ListNotations.\nOpen Scope Z_scope.\n")
+HDR0 = ("From Coq Require Import ZArith List Bool PrimFloat.\nFrom PR Require Model.Stack.\nFrom PR Require Import Base.Num Base.F64 Base.Slice Base.ListX Model.HashEq "
+        "Model.C12_run.\nImport ListNotations.\nOpen Scope Z_scope.\n")
+# only the area histories execute the regenerated __getitem__: the other shards still run when the translation is broken
+HDR_AREA = HDR0 + "From PR Require Import Gen.GenC12 Model.C12_slice Model.C12_run_area.\n"
 
 
 def shard_text(g, obs, kind, items):
@@ -922,7 +957,7 @@ def shard_text(g, obs, kind, items):
     chk = {"pair": "chk_pair", "key": "chk_key", "area_hist": "chk_area_hist", "swath_hist": "chk_swath_hist", "stack_hist": "chk_stack_hist"}[kind]
     ty = {"pair": "pair_case", "key": "key_case", "area_hist": "area_hist_case", "swath_hist": "swath_hist_case", "stack_hist": "stack_hist_case"}[kind]
     cases = [f(mp) for _, f in items]
-    return cases, (HDR + "Definition pool : list geo := [\n%s].\nDefinition cases : list %s := [\n%s].\nEval vm_compute in (bad (%s pool) cases).\n"
+    return cases, ((HDR_AREA if kind == "area_hist" else HDR0) + "Definition pool : list geo := [\n%s].\nDefinition cases : list %s := [\n%s].\nEval vm_compute in (bad (%s pool) cases).\n"
             % (";\n".join(pool), ty, ";\n".join(cases), chk))
 
 
@@ -947,7 +982,7 @@ def build_coq(ctx, g, obs, skip):
             continue
         j1, j2 = jid[obs["json"][k1]], jid[obs["json"][k2]]
         items["key"].append(([s1, t1, s2, t2], (lambda mp, kc=kc, r=r, j1=j1, j2=j2:
-                                                "(%d, %d, %d, %d, %d, %d, [%s; %s; %s])" % (mp[kc[0]], mp[kc[1]], j1, mp[kc[3]], mp[kc[4]], j2, b(r["base"]), b(r["future"]), b(r["func"])))))
+                                                "(%d, %d, %d, %d, %d, %d, [%s; %s; %s; %s])" % (mp[kc[0]], mp[kc[1]], j1, mp[kc[3]], mp[kc[4]], j2, b(r["base"]), b(r["future"]), b(r["func"]), b(r["cache_filename"])))))
     rt = obs["rt"]
     rt_tab = "[" + "; ".join("(%d, %d)" % (k, v) for k, v in enumerate(rt)) + "]"
     for idx, (c, steps) in enumerate(zip(g.area_hist, obs["area_hist"])):
@@ -1036,6 +1071,7 @@ def run(ctx):
                 "least one mutating call (append/slice/copy); DISTINCT = distinct canonical JSON of the pair of specs / triple / history")
     g = Gen(ctx)
     g.areas()
+    g.falsy_keys()
     g.f32_tiny()
     g.swaths()
     g.stacks()
